@@ -3,8 +3,10 @@ package pass1
 import (
 	"fmt"
 	"log"
+	"strconv"
 
 	"github.com/HobbyOSs/gosk/internal/ast"
+	"github.com/HobbyOSs/gosk/pkg/cpu"
 	"github.com/HobbyOSs/gosk/pkg/ng_operand"
 )
 
@@ -37,6 +39,23 @@ func processPushPopCommon(env *Pass1, operands []ast.Exp, instName string) {
 
 	// Set BitMode
 	ngOperands = ngOperands.WithBitMode(env.BitMode)
+
+	// PUSH imm: 6A ib when the value fits a signed byte, otherwise 68 iw/id
+	// by mode (the same choice the code generator makes)
+	if instName == "PUSH" {
+		if v, perr := strconv.ParseInt(operandString, 0, 64); perr == nil {
+			immSize := 4
+			if env.BitMode == cpu.MODE_16BIT {
+				immSize = 2
+			}
+			if v >= -128 && v <= 127 {
+				immSize = 1
+			}
+			env.LOC += int32(1 + immSize)
+			env.Client.Emit(fmt.Sprintf("%s %s", instName, operandString))
+			return
+		}
+	}
 
 	// Calculate instruction size
 	size, err := env.AsmDB.FindMinOutputSize(instName, ngOperands)
